@@ -8,7 +8,7 @@ EXTRACT = ("theories/Extract/XC02.v", "c02",
            ["entry_hull_ijv", "entry_hull_labels", "entry_hull_label", "entry_hull_ok", "entry_batch_ok"])
 PYX = {"_convex_hull.pyx": ["CONVEX", "convex_hull_ijv"]}
 RULE = ("corpus; every non-empty point set of a 3x3 grid (thorough: 3x4 and 4x3) as one label through convex_hull_ijv, "
-        "alone (slack 0, where the in-place guard can fire) and behind a filler label (slack > 0); random label images "
+        "alone (slack 0, where the in-place guard can fire), followed by another label (whose first row an overrun would corrupt) and behind a filler label (slack > 0); random label images "
         "1x1..12x12 (thorough ..40x40: noise at several densities, blobs, lines, diagonals, U/C shapes, columns with "
         "gaps, objects touching all borders) through cpmorphology.convex_hull with index lists {None, all, permuted, "
         "with absent labels, subsets}; random ijv lists with non-dense columns, duplicate points, label 0, gaps in the "
@@ -148,6 +148,9 @@ def generate(ctx):
         for pts in _grid_sets(H, W):
             ijv = [[i, j, 2] for i, j in pts]
             cases.append({"fn": "ijv", "ijv": ijv, "idx": [2]}); ctx.count("grid-alone")
+            # followed by another label: an output overrunning the label's own rows would corrupt its first pixel
+            cases.append({"fn": "ijv", "ijv": ijv + [[1, 0, 3], [0, 1, 3], [2, 2, 3]], "idx": [3, 2] if len(pts) % 2 else [2, 3]})
+            ctx.count("grid-followed")
             if len(pts) % 3 == 0 or len(pts) <= 2:
                 k = 1 + len(pts) % 4
                 fill = [[0, c, 1] for c in range(k + 1)] + [[1, 0, 1]]
